@@ -183,7 +183,7 @@ class ModuleInliner:
         self.inlined = 0
         self.hoisted = 0
         # rules also refer to helpers by a stem of their name ("_calc_stopping_criterion" ...)
-        self.anchor_stems = [t for t in anchors if t.startswith("_") and len(t) >= 10]
+        self.anchor_stems = [t for t in anchors if t.startswith("_") and len(t) >= 16 and not t.endswith("_")]
 
     # ------------------------------------------------------------------ helper eligibility
     def _eligible(self, h: ast.FunctionDef, nested: bool) -> bool:
@@ -302,15 +302,19 @@ class ModuleInliner:
             if r in assigned and r not in subst and r not in names:
                 names[r] = result_name
         # `a, b = h(...)` with `return (r1, r2)`: the helper keeps writing its results as a, b
-        if result_tuple and tails and all(isinstance(n.value, ast.Tuple) and len(n.value.elts) == len(result_tuple)
-                                           and all(isinstance(x, ast.Name) for x in n.value.elts) for n in tails):
-            cols = [{n.value.elts[i].id for n in tails} for i in range(len(result_tuple))]
-            if all(len(c) == 1 for c in cols):
-                rs = [next(iter(c)) for c in cols]
-                if len(set(rs)) == len(rs) and all(r in assigned and r not in subst and r not in names for r in rs):
-                    for r, x in zip(rs, result_tuple):
-                        if x != "_":
-                            names[r] = x
+        if result_tuple and tails and all(isinstance(n.value, ast.Tuple) and len(n.value.elts) == len(result_tuple) for n in tails):
+            # position by position: a component that every tail returns as the same helper local keeps the caller's name for it
+            taken = set(names.values())
+            for i, x in enumerate(result_tuple):
+                if x == "_":
+                    continue
+                col = {n.value.elts[i].id if isinstance(n.value.elts[i], ast.Name) else None for n in tails}
+                if len(col) != 1 or None in col:
+                    continue
+                r = next(iter(col))
+                if r in assigned and r not in subst and r not in names and x not in taken and (x == r or x not in assigned):
+                    names[r] = x
+                    taken.add(x)
         for nm in sorted(assigned):
             if nm in names or nm in subst:
                 continue
